@@ -63,6 +63,8 @@ pub struct ExecOut {
     pub remainder_len: Option<usize>,
     pub remainder_ids: Option<Vec<u64>>,
     pub remainder_complete: bool,
+    pub probe_handoffs: u64,
+    pub probe_calls: u64,
 }
 
 pub static CLOSURE_CALLS: AtomicI64 = AtomicI64::new(0);
@@ -83,6 +85,10 @@ pub fn install_panic_hook() {
             "<non-string payload>".to_string()
         };
         let loc = info.location().map(|l| format!("{}:{}", l.file(), l.line())).unwrap_or_default();
+        if !loc.contains("/repo/") {
+            // a panic of the harness itself is never silent
+            eprintln!("HARNESS-PANIC: {} @ {}", msg, loc);
+        }
         LAST_PANIC.with(|c| *c.borrow_mut() = format!("{} @ {}", msg, loc));
     }));
 }
@@ -104,6 +110,7 @@ pub struct Ctx<'a> {
 
 impl<'a> Ctx<'a> {
     pub fn new(tid: usize, info: &'a SrcInfo) -> Self {
+        sched::set_worker_id(tid);
         Ctx { tid, info, recs: Vec::new(), open: None, cur_items: Vec::new(), saw_end: false }
     }
     fn call(&mut self, op: u8) -> u64 {
@@ -453,6 +460,8 @@ where
         Inject::Clone(k) => CLONE_PANIC_AT.store(k, Ordering::Relaxed),
         Inject::Closure(k) => CLOSURE_PANIC_AT.store(k, Ordering::Relaxed),
     }
+    let tmd = std::time::Instant::now();
+    let timing = std::env::var("OCV_TIMING").is_ok();
     let n = cfg.scripts.len();
     let mut logs: Vec<Vec<Rec>> = Vec::new();
     let mut overrun = false;
@@ -535,6 +544,7 @@ where
             }
         }
     }
+    if timing { eprintln!("  scripts done {:?}", tmd.elapsed()); }
     sched::PERTURB.store(0, Ordering::Relaxed);
     // faults are injected into the concurrent phase only
     PROBE.panic_at.store(-1, Ordering::Relaxed);
@@ -585,6 +595,7 @@ where
         }
     }
 
+    if timing { eprintln!("  finish done {:?}", tmd.elapsed()); }
     let mut recs: Vec<Rec> = logs.into_iter().flatten().collect();
     recs.sort_by_key(|r| (r.t0, r.thread));
 
@@ -603,7 +614,9 @@ where
         sched: sched_report.as_ref(),
         frozen: cfg.freeze.is_some(),
     };
+    let tmc = std::time::Instant::now();
     let (violations, stats) = rules::check(&hist);
+    if std::env::var("OCV_TIMING").is_ok() { eprintln!("rules {:?}", tmc.elapsed()); }
     ExecOut {
         violations,
         recs,
@@ -614,5 +627,7 @@ where
         remainder_len: remainder.as_ref().map(|r| r.len()),
         remainder_ids: remainder.map(|r| r.iter().map(|i| i.id).collect()),
         remainder_complete,
+        probe_handoffs: PROBE.handoffs.load(Ordering::Relaxed) as u64,
+        probe_calls: PROBE.calls.load(Ordering::Relaxed) as u64,
     }
 }
